@@ -120,6 +120,8 @@ def run(prop, tier, seed, replay, clauses, n_quick, n_thorough, rule, gen_kw=Non
     plans += [g.shifted_nested_plan() for _ in range(max(3, n // 10))]   # nested members with shifted canonical numbers
     plans += [g.interleaved_keys_plan() for _ in range(max(2, n // 20))]  # key order interleaving the bounded types
     plans += [g.wildcard_prefix_plan() for _ in range(max(2, n // 20))]   # leading members leave a key unbound
+    plans += [g.default_vs_explicit_plan() for _ in range(max(2, n // 30))]  # omitted default argument next to an explicit one
+    plans += [g.assoc_subsets_plan() for _ in range(max(2, n // 30))]     # members bind different subsets of three associated types
     # adversarial presentation of a third of the plans: parameters spelled like reserved canonical names in permuted
     # order / like traits, items and associated types; bounds moved to the where-clause; declaration order shuffled
     from . import variants as V
